@@ -36,9 +36,12 @@ CODES = {
             20: "panic in unify/abi_type_for on a closed state", 21: "no layout row for a constant storage slot",
             22: "row beyond the slot although the span discipline holds", 23: "did not finish (poll budget)",
             24: "layout not sorted", 25: "process died (abort / native stack overflow)"},
-    "classes": {5: "model abi_type_for on the dumped classes differs from the layout rows", 62: "known finding C12:K-nested",
-                74: "row at or beyond bit 256 outside the known class", 75: "row ends beyond bit 256 outside the known class",
-                76: "row beyond the slot although the span discipline holds", 79: "panic"},
+    "classes": {5: "model abi_type_for on the dumped classes differs from the layout rows",
+                62: "nested packed encoding reported beyond the slot (pinned abi_type_for without the in-word guard: the class of "
+                    "former finding C12:K-nested)",
+                74: "row at or beyond bit 256", 75: "row ends beyond bit 256",
+                76: "row beyond the slot although the span discipline holds",
+                77: "row beyond the slot although the slot's own class satisfies the hypotheses of abi_rows_in_slot", 79: "panic"},
 }
 
 HEADER = ("From Coq Require Import String.\nFrom SLX Require Import Base gen.ValueSig gen.WordUseTable SymVal TypeExpr AbiT "
@@ -306,8 +309,10 @@ def evaluate(ctx, suite, fn, lines, outs, classes, per_shard=60):
         LAST_CODES[suite][lines[i]] = code
         what = CODES[suite.split("-")[0]].get(code, str(code))
         if code == 62 and _mine(suite, 62):
-            ctx.violate("C12:K-nested", "sub-word of a sub-word beyond the slot: %s" % lines[i][:160],
-                        {"suite": suite, "input": lines[i], "code": code, "meaning": what, "impl": outs[i][:1500]})
+            # only produced when the translator selected the pinned (unguarded) flattening: a violation with a replay
+            ctx.violate("C12:62:%s" % lines[i].split(" ")[0][:48], "%s: program %s" % (what, lines[i][:160]),
+                        {"suite": suite, "input": lines[i], "code": lines[i].split(" ")[0], "meaning": what, "impl": outs[i][:1500],
+                         "how": "echo '<input>' | build/harness-target/debug/slxh tc-classes"})
         elif code >= 10 and code != 62:
             if not _mine(suite, code):
                 continue
